@@ -15,11 +15,6 @@ package redisemu
 //@ modifies alloc dataStore.commandNumber
 //@ ensures result != nil && result.ds == ds && result.id != 0 && result.id != ds.multiLock
 
-//@ func dataStore.load
-//@ trusted runs at start-up (newDataStoreSet) before the store is shared; replaces ds.data with the decoded snapshot
-//@ requires ds != nil
-//@ modifies heap
-
 //@ pred dssOK(dss *dataStoreSet) = dss != nil && dss.dbs != nil
 // table invariant: only indexes 0..15 are present and every entry is a database (established by createDbUnlocked, the only writer)
 //@ pred dbsWF(dss *dataStoreSet, j int) = haskey(dss.dbs, j) ==> (0 <= j && j <= 15 && dss.dbs[j] != nil)
